@@ -27,6 +27,8 @@ CHECKS.update({
          "All 128 method subsets, the 9+9 consumes/produces tables and the 25x2 security tables are enumerated; every lookup of the statement is compared with a reference model over generic JSON, plus random documents and fixtures.", "7/C14"),
  "C15": ("analyzer", "exploration", "runtime monitor: reference model of effective parameters + callback-protocol and panic/no-panic observation on every method x path x id query",
          "For each document every method x path (existing or not) and every id (known or not) is queried through the four variants; results compared as sets with a reference model, callback arguments and panics observed.", "7/C15"),
+ "C16": ("race", "exploration", "Go race detector (-race build) over seeded concurrent getter workloads on a shared Spec + recorded-history check against sequential answers + before/after deep comparison of the document",
+         "The real analyzer is driven by 2/4/16 goroutines (barrier-released, seeded random getter sequences, same-getter and first-use rounds on fresh analyzers, concurrent New) under the race detector; every recorded answer is compared with the sequential one; document immutability and map-copy safety are checked by serialization + reflect.DeepEqual against a twin. Evidence reports overlapping getter pairs actually observed.", "7/C16"),
 })
 PENDING = {}
 
